@@ -18,38 +18,69 @@ Record vin := mkvin { wx : Q; wy : Q; wz : Q; wsc : Q; wdm : dims }.
 Record gcase := mkg { gfn : string; gds : bool; gb1 : vin; gb2 : vin; gwl : inp; gg : vin;
                       go1 : outcome; go2 : outcome; gtol : Q; gband : Q }.
 
-(* ---- independent specification over Q (physical values) *)
+(* ---- the arithmetic the regenerated functions are run with: QInst's operations, every result rounded
+   to 160 significant bits (qr below).  Exact rationals are hopeless here: each sqrt contributes a
+   140-bit denominator and the frame / Kahan computations nest six of them (14 s per case); the
+   accumulated relative error of the rounded arithmetic is below 1e-60, against tolerances >= 1e-13. *)
+(* keep 160 significant bits; power-of-two denominators, no gcd normalisation *)
+Definition zdivd (a d : Z) : Z :=          (* a / d, by a shift when d is a power of two *)
+  let ld := Z.log2 d in if (d =? Z.shiftl 1 ld)%Z then Z.shiftr a ld else (a / d)%Z.
+Definition qr (q : Q) : Q :=
+  let n := Qnum q in
+  if (n =? 0)%Z then 0
+  else let d := Zpos (Qden q) in
+       let s := (160 - (Z.log2 (Z.abs n) - Z.log2 d))%Z in
+       if (0 <=? s)%Z then Qmake (zdivd (Z.shiftl n s) d) (Z.to_pos (Z.shiftl 1 s))
+       else (Z.shiftl (n / (Z.shiftl d (- s))) (- s)) # 1.
+(* square root to ~160 significant bits (truncated) *)
+Definition qsqrt2 (q : Q) : Q :=
+  if Qle_bool q 0 then 0
+  else let n := Qnum q in let d := Zpos (Qden q) in
+       let t := Z.max 0 (160 - (Z.log2 n - Z.log2 d) / 2)%Z in
+       Qmake (Z.sqrt (zdivd (Z.shiftl n (2 * t)) d)) (Z.to_pos (Z.shiftl 1 t)).
+Definition QROps (h mn : Q) : Fops :=
+  mkFops Q (fun a b => qr (a + b)) (fun a b => qr (a - b)) (fun a b => qr (a * b)) (fun a b => qr (a / b))
+         Qopp (fun z => z # 1) (fun a => qsqrt2 (qr a)) qsin qcos (fun y x => qr (qatan2 y x)) qasin qexp Qabs qpi
+         qleb qltb qeqb qclose h mn qrint.
+
+(* ---- independent specification over Q (physical values), same rounded arithmetic *)
+Definition rmul (a b : Q) := qr (a * b).
+Definition radd (a b : Q) := qr (a + b).
+Definition rsub (a b : Q) := qr (a - b).
+Definition rdiv (a b : Q) := qr (a / b).
+Definition rsqrt (a : Q) := qsqrt2 (qr a).
 Definition q3 := (Q * Q * Q)%type.
-Definition phys (v : vin) : q3 := (qmul (wx v) (wsc v), qmul (wy v) (wsc v), qmul (wz v) (wsc v)).
-Definition d3 (a b : q3) : Q := let '(a1, a2, a3) := a in let '(b1, b2, b3) := b in qadd (qadd (qmul a1 b1) (qmul a2 b2)) (qmul a3 b3).
-Definition n3 (a : q3) : Q := qsqrt (d3 a a).
-Definition s3 (k : Q) (a : q3) : q3 := let '(a1, a2, a3) := a in (qmul k a1, qmul k a2, qmul k a3).
-Definition add3 (a b : q3) : q3 := let '(a1, a2, a3) := a in let '(b1, b2, b3) := b in (qadd a1 b1, qadd a2 b2, qadd a3 b3).
+Definition phys (v : vin) : q3 := (rmul (wx v) (wsc v), rmul (wy v) (wsc v), rmul (wz v) (wsc v)).
+Definition d3 (a b : q3) : Q := let '(a1, a2, a3) := a in let '(b1, b2, b3) := b in radd (radd (rmul a1 b1) (rmul a2 b2)) (rmul a3 b3).
+Definition n3 (a : q3) : Q := rsqrt (d3 a a).
+Definition s3 (k : Q) (a : q3) : q3 := let '(a1, a2, a3) := a in (rmul k a1, rmul k a2, rmul k a3).
+Definition add3 (a b : q3) : q3 := let '(a1, a2, a3) := a in let '(b1, b2, b3) := b in (radd a1 b1, radd a2 b2, radd a3 b3).
 Definition sub3 (a b : q3) : q3 := add3 a (s3 (-1) b).
 Definition cross3 (a b : q3) : q3 :=
   let '(a1, a2, a3) := a in let '(b1, b2, b3) := b in
-  (qsub (qmul a2 b3) (qmul a3 b2), qsub (qmul a3 b1) (qmul a1 b3), qsub (qmul a1 b2) (qmul a2 b1)).
+  (rsub (rmul a2 b3) (rmul a3 b2), rsub (rmul a3 b1) (rmul a1 b3), rsub (rmul a1 b2) (rmul a2 b1)).
 
 Section Spec.
 Variables h mn : Q.
-Definition sp_ey (g : q3) : q3 := s3 (qdiv (-1) (n3 g)) g.
+Definition sp_ey (g : q3) : q3 := s3 (rdiv (-1) (n3 g)) g.
 Definition sp_ez (b1 g : q3) : q3 :=
-  let ey := sp_ey g in let z := sub3 b1 (s3 (d3 b1 ey) ey) in s3 (qdiv 1 (n3 z)) z.
+  let ey := sp_ey g in let z := sub3 b1 (s3 (d3 b1 ey) ey) in s3 (rdiv 1 (n3 z)) z.
 Definition sp_delta (b2 g : q3) (lam : Q) : Q :=
-  qdiv (qmul (qmul (qmul (n3 g) (qmul mn mn)) (qmul lam lam)) (d3 b2 b2)) (qmul 2 (qmul h h)).
+  rdiv (rmul (rmul (rmul (n3 g) (rmul mn mn)) (rmul lam lam)) (d3 b2 b2)) (rmul 2 (rmul h h)).
 Definition sp_raised (b2 g : q3) (lam : Q) : q3 := add3 b2 (s3 (sp_delta b2 g lam) (sp_ey g)).
 Definition sp_two_theta (b1 b2 g : q3) (lam : Q) : Q :=
   let c := sp_raised b2 g lam in qatan2 (n3 (cross3 b1 c)) (d3 b1 c).
 Definition sp_phi (b1 b2 g : q3) (lam : Q) : Q :=
   let c := sp_raised b2 g lam in qatan2 (d3 c (sp_ey g)) (d3 c (cross3 (sp_ey g) (sp_ez b1 g))).
 Definition sp_gamma (b1 b2 g : q3) (lam : Q) : Q :=
-  qatan2 (qabs (qadd (d3 b2 (sp_ey g)) (sp_delta b2 g lam))) (d3 b2 (sp_ez b1 g)).
+  qatan2 (Qabs (radd (d3 b2 (sp_ey g)) (sp_delta b2 g lam))) (d3 b2 (sp_ez b1 g)).
 End Spec.
 
 Section D.
 Variables h mn : Q.
-Notation O := (QOps h mn).
-Definition vv (v : vin) : val O := qvec h mn (wx v) (wy v) (wz v) (wsc v) (wdm v).
+Notation O := (QROps h mn).
+Definition vv (v : vin) : val O := VVar O (EVec O (wx v) (wy v) (wz v)) (mkU O (wsc v) (wdm v)) DVec3.
+Definition qv' (i : inp) : val O := mkv O i qid.
 
 (* absolute comparison of an angle (model or spec value x in rad) with what the implementation returned *)
 Definition cmp_angle (x : Q) (dt : option dtype) (o : outcome) (tol : Q) : string :=
@@ -78,7 +109,7 @@ Definition first_of (l : list string) : string :=
   fold_right (fun r acc => if String.eqb r "" then acc else r) "" l.
 
 Definition check (c : gcase) : string :=
-  let b1 := vv (gb1 c) in let b2 := vv (gb2 c) in let g := vv (gg c) in let wl := qv h mn (gwl c) in
+  let b1 := vv (gb1 c) in let b2 := vv (gb2 c) in let g := vv (gg c) in let wl := qv' (gwl c) in
   let lam := qmul (iv (gwl c)) (isc (gwl c)) in
   let p1 := phys (gb1 c) in let p2 := phys (gb2 c) in let pg := phys (gg c) in
   if String.eqb (gfn c) "sawg" then
@@ -101,6 +132,15 @@ Definition check (c : gcase) : string :=
     end
   else if String.eqb (gfn c) "drop" then
     (* _drop_due_to_gravity(distance = |b2|, wavelength, gravity): relative comparison, unit of distance *)
-    cmp_out h mn (p_drop_due_to_gravity O (gds c) (sc_norm O b2) wl g) (go1 c) (gtol c)
+    match p_drop_due_to_gravity O (gds c) (sc_norm O b2) wl g, go1 c with
+    | VVar _ (ENum _ x _) u d, OutVal v sc dm dt =>
+        if negb (deqb (ud _ u) dm) then "unit-dimension"
+        else if negb (rel_close (us _ u) sc (1 # 1000000000)) then "unit-multiplier"
+        else if negb (dtype_eqb d dt) then "dtype"
+        else if rel_close (v * sc) (x * us _ u) (gtol c) then "" else "value"
+    | VErr _ e, OutErr cls => ""
+    | VErr _ e, _ => "model-raises-" ++ e
+    | _, _ => "shape"
+    end
   else "unknown-function".
 End D.
